@@ -2,7 +2,7 @@
 import re
 
 from analysis import (Prov, Guards, fmt, fmt_short, walk, roots, short, comparison, find_calls, callee_matches,
-                      must_pass, path_to, describe_path, linear, normalised_cmp, const_int_of, cmp_intervals)
+                      must_pass, path_to, describe_path, linear, normalised_cmp, const_int_of, cmp_intervals, canon)
 from facts import AnchorError, strip_closure
 from harness import Rule, guarded
 
@@ -290,6 +290,18 @@ def r3(ctx):
             shrink.append((bi, g.bool_edges(bi)[1]))
         if c[0] == ">" and l.startswith("Vec::len(") and const_int_of(c[2]) == 1 and ".nodes" in l:
             many.append((bi, g.bool_edges(bi)[1]))
+    # the number the filtered answer is compared with is the number of records received: nothing is taken out of the answer before it is counted
+    all_retains = [rb for rb, t in b.calls() if callee_matches(t, r"vec::Vec::<.*>::(retain|retain_mut|truncate|drain|dedup_by_key|dedup)$", r"Vec::(retain|retain_mut|truncate|drain|dedup_by_key|dedup)$") and
+                   ".nodes" in fmt_short(prov.operand(t.args[0]))]
+    for bi, t, e in g.switches():
+        c = comparison(e)
+        if c and c[0] == "<" and fmt_short(c[1]).startswith("Vec::len(") and fmt_short(c[2]).startswith("Vec::len(") and ".nodes" in fmt_short(c[1]):
+            before = canon(c[2])
+            site = before[3][1] if len(before) > 3 and before[3] else None
+            early = [rb for rb in all_retains if site is not None and rb in b.live_blocks() and site in b.reachable(rb)]
+            rule.check(site is not None and not early, "the length the filtered answer is compared with is taken before anything is removed from the answer", "ban|counted-after-filter",
+                       "handle_rpc_response removes records from the answer before it counts them (`before_len`): records removed there - the requester's own record, say - "
+                       "are not evidence any more, and a responder that returns them at distances that were not requested is not banned", loc=b.loc(b.blocks[bi].term.line))
     for bi, t in bans:
         r = b.reachable(0, removed_edges=shrink + many)
         rule.check(bool(shrink) and bool(many) and bi not in r, "ban only past `len after filter < len before` or `more than one record for [0]`",
